@@ -239,7 +239,7 @@ func runC12(seed uint64, n, t int, createdAt time.Time, restarts []c12Restart, t
 }
 
 func checkC12(c *Ctx) {
-	c.Rule = "fault enumeration over restart points of the airgapped machine: before each of the four key-generation steps ('between'), inside a step after the result was computed but before it was logged, and after it was logged but before the result file was written (unwritable result folder); restart = copy of the database directory as on disk, NewMachine, SetEncryptionKey, InitKeys, ReplayOperationsLog. Every single (participant, step, mode) point for n<=3 (quick) / n<=4 (thorough), plus seeded runs with 2-3 restarts. Oracle: every machine's final share and group polynomial and published commitments are byte-equal to an uninterrupted reference run with the same mnemonics and opening proposal; the operation log does not change across a replay; a twin machine from the same mnemonic fed the same operations agrees on long-term key, commitments, share. A second part (child process) drives the shipped cmd/airgapped binary through its prompt on a pseudo-terminal: SIGKILL before steps, restart, replay_operations_log, same comparison. A damaged (rejected) step operation fed before a restart: the restarted+replayed machine and the one that never stopped must answer the genuine operation alike. distinct = distinct (n,t,restart set)"
+	c.Rule = "fault enumeration over restart points of the airgapped machine: before each of the four key-generation steps ('between'), inside a step after the result was computed but before it was logged, and after it was logged but before the result file was written (unwritable result folder); restart = copy of the database directory as on disk, NewMachine, SetEncryptionKey, InitKeys, ReplayOperationsLog. Every single (participant, step, mode) point for n<=3 (quick) / n<=4 (thorough), plus seeded runs with 2-3 restarts. Oracle: every machine's final share and group polynomial and published commitments are byte-equal to an uninterrupted reference run with the same mnemonics and opening proposal; the operation log does not change across a replay; a twin machine from the same mnemonic fed the same operations agrees on long-term key, commitments, share. A second part (child process) drives the shipped cmd/airgapped binary through its prompt on a pseudo-terminal: SIGKILL before steps, restart, replay_operations_log, same comparison. A damaged (rejected) step operation fed before a restart: the restarted+replayed machine and the one that never stopped must answer the genuine operation alike. distinct = distinct (n,t,restart set) One of the two-rounds cases drops the log of a finished rehearsal round (drop_operations_log) right before the restart."
 	c.Assumptions = []string{"deal ciphertexts are not compared (ECIES ephemeral keys are not constrained by the property)", "the machine's LevelDB writes are atomic per Put"}
 	defer func() { world.UseOpLog = false }()
 	steps := []string{OpCommits, OpDeals, OpResponses, OpMasterKey}
